@@ -127,7 +127,7 @@ def run(tier: str) -> int:
     ]
     ck.assumptions = ["input outcomes never carry the internal _OkData wrapper (Outcome.isInput)",
                       "Ok values are JSON values with floats restricted to multiples of 1/8"]
-    ck.prove()
+    ck.prove(extractors=["ResultTable"])
 
     r = rng("c03")
     n = 4000 if tier == "quick" else 150000
